@@ -355,6 +355,20 @@ def run(tier, seed):
             if vals != [float(k + 1), float(k + 11)]:
                 ofail.append({"config": etext, "lines": [], "file": fn, "real_rows": [str(v) for v in vals], "expected_points": [str(float(k + 1)), str(float(k + 11))],
                               "tag": {"kind": "attribution"}})
+    # a large cast: 40 actors, each with a watched signal that speaks twice, some time apart (40 + 40 data files are
+    # written to in turn: every file must still hold all its points at the end)
+    big = ("role meter\n  :wait sleep 1.2\n  spotlight echo \"v=$((i+1))\"; sleep 0.6; echo \"v=$((i+101))\"; sleep 30\n"
+           "  signal v scalar at ^(?P<ts_now>)v=(?P<scalar>\\d+)$\nend\ncast\n  m* play 40 meter\nend\nscript\n  tempo 100ms\n"
+           "  scene w entails for every meter: wait\n  storyline w\nend\naudience\n  obs watches every meter v\nend\n")
+    for er in e2e.run_many([e2e.Play(big, timeout=60)], workers=1):
+        rep.count("e2e-large-cast-plays")
+        for k in range(40):
+            fn = "obs.m%d.v.csv" % (k + 1)
+            vals = sorted(float(l.split()[1]) for l in er["csv"].get(fn, "").splitlines() if len(l.split()) >= 2)
+            if vals != [float(k + 1), float(k + 101)]:
+                ofail.append({"config": big, "lines": [], "file": fn, "real_rows": [str(v) for v in vals], "expected_points": [str(float(k + 1)), str(float(k + 101))],
+                              "tag": {"kind": "large-cast"}})
+                break
     rep.obligation("K-C08: detectSignals + audit loop vs model on the forwarded observations (%d cases)" % len(cases), "K", not kdis, json.dumps(kdis[:2])[:1800])
     rep.obligation("O-C08: every CSV file holds exactly the points its lines denote (pointsOf) (real collector)", "O", not ofail, json.dumps(ofail[:2])[:1800])
     if ofail:
